@@ -30,6 +30,11 @@ CLAIMED = {
     note=TB + "The iteration column of the parse-only frames is the model's input (C12 decides it). Row order of the table is not compared.",
     technique="Lean 4 proof (group-by as filter/sum, case analysis on counts) + model/implementation correspondence",
     design="7/C17"),
+  "C18": dict(
+    text="Lean 4 theorems over a model of every filter class: C18_subframe (result is a sub-list of the input rows, order and columns unchanged), C18_rowlocal_exact (each row-local filter is List.filter of its documented predicate), C18_iterIndex_rule, C18_composite_sequential / _single, C18_rowlocal_comm (intersection in any order), C18_rowlocal_idem, and C18_iterIndex_not_idempotent (a decided counterexample showing the restriction to row-local members is necessary). Tied to the real filter classes on encoded and decoded frames, with and without rank column / symbol table, single, composite, sequential and repeated application, by a differential run, a purity check (deep comparison of the input frame) and a Python oracle.",
+    note=TB + "Regular-expression matching is Python's re (the model receives the set of matching strings).",
+    technique="Lean 4 proof (List.filter algebra) + model/implementation correspondence",
+    design="7/C18"),
   "C04": dict(
     text="Lean 4 theorem C04_temporal_partition: for every non-empty list of non-negative device intervals and every start-sorted permutation of it, the merge routine's numbers equal the unit-cell measures of the span/idle/compute/remainder and sum exactly to kernel_time. Tied to the code by a differential run of get_temporal_breakdown against the executable model, plus Spec.C04.check and an independent Python oracle evaluated on the implementation's own output.",
     note=TB + "Percent columns compared within 0.006 (float rounding not modelled). Kernel-type regexes modelled as prefix/infix tests and compared against Python re on every generated name.",
